@@ -1140,7 +1140,17 @@ class SimConn:
                 if gate.done():
                     gate.result()
                 raise asyncio.TimeoutError()
-            await asyncio.wait([gate], timeout=c.latency)
+            tick = getattr(c, "tick", None)
+            if tick:
+                # replies reach the client in bursts: everything due within one tick is delivered in the same
+                # event-loop iteration (several sockets readable in one select() round)
+                when = (int((loop.time() + c.latency) / tick) + 1) * tick
+                due = loop.create_future()
+                h = loop.call_at(when, lambda: due.done() or due.set_result(None))
+                await asyncio.wait([gate, due], return_when=asyncio.FIRST_COMPLETED)
+                h.cancel()
+            else:
+                await asyncio.wait([gate], timeout=c.latency)
             if gate.done():
                 gate.result()
             if not expect_response:
